@@ -1,3 +1,59 @@
-//! Solver harnesses mounted into rs-matter/src/sc/case/resumption.rs
+//! C07 - CASE resumption cache: records of a removed fabric are purged, others untouched;
+//! mounted into rs-matter/src/sc/case/resumption.rs.
 #![allow(unused_imports, dead_code)]
 use super::*;
+use crate::verif_support::*;
+use crate::{vassert, vcover, vok};
+
+fn any_record() -> ResumableSession {
+    let f = any_u8();
+    assume(f != 0);
+    ResumableSession {
+        fab_idx: NonZeroU8::new(f).unwrap(),
+        peer_nodeid: any_u64(),
+        peer_cat_ids: [0; 3],
+        resumption_id: CaseResumptionId::new(),
+        shared_secret: crate::crypto::CanonPkcSharedSecret::new(),
+    }
+}
+
+#[cfg_attr(kani, kani::proof)]
+#[cfg_attr(kani, kani::unwind(5))]
+#[cfg_attr(not(kani), test)]
+fn c07_q_resumption_purge_for_fabric() {
+    let mut rs = ResumableSessions::new();
+    let n = any_usize();
+    assume(n <= 3);
+    let mut fabs = [0u8; 3];
+    let mut nodes = [0u64; 3];
+    let mut i = 0;
+    while i < n {
+        let r = any_record();
+        fabs[i] = r.fab_idx.get();
+        nodes[i] = r.peer_nodeid;
+        let _ = rs.records.push(r);
+        i += 1;
+    }
+    let f = any_u8();
+    assume(f != 0);
+    let fab = NonZeroU8::new(f).unwrap();
+    rs.remove_for_fabric(fab);
+    // nothing of the removed fabric is left, by either lookup
+    vassert!(rs.iter().all(|r| r.fab_idx != fab), "ROLE:no-resumption-record-of-the-removed-fabric-survives");
+    let probe = any_u64();
+    vassert!(rs.find_by_peer(fab, probe).is_none(), "ROLE:no-resumption-record-of-the-removed-fabric-survives");
+    // the records of other fabrics are all still there, in order
+    let mut expect = 0;
+    let mut i = 0;
+    while i < n {
+        if fabs[i] != f {
+            vassert!(expect < rs.len(), "ROLE:resumption-records-of-other-fabrics-kept");
+            let r = &rs.records[expect];
+            vassert!(r.fab_idx.get() == fabs[i] && r.peer_nodeid == nodes[i], "ROLE:resumption-records-of-other-fabrics-kept");
+            expect += 1;
+        }
+        i += 1;
+    }
+    vassert!(rs.len() == expect, "ROLE:resumption-records-of-other-fabrics-kept");
+    vcover!(expect > 0 && expect < n);
+}
